@@ -587,7 +587,7 @@ fn c12(tier: &str, thorough: bool) -> i32 {
     crate::watch::start(ctx, std::time::Duration::from_secs(30));
     ctx.assume("faults are injected at the Read/Seek calls of the backend (FaultFile); a failed call has no effect on the backend");
     ctx.assume("true stream contents are known from the base-file builder; positions are read back with stream_position(), which performs no I/O");
-    ctx.set_rule("for each read-only workload: fault-free run to learn the N underlying calls, then one run per read/seek call index k with that call failing (ErrorKind::Other) and one with it returning ErrorKind::Interrupted (which std's read_exact retries inside the library), then all pairs k1<k2 (k2 ranges over the calls of the k1 run); every failed API call is retried up to 3 times; oracle: Err, or the fault-free value; bytes equal the true content at the position the handle reports; no panic. A case is one (workload, plan); all are distinct");
+    ctx.set_rule("for each read-only workload (four hand-written ones, and every sequence of 2 - thorough 3 - steps over 11 read / fill_buf / seek kinds on a mini and a regular stream with a 1024-byte and a 1 MiB buffer): fault-free run to learn the N underlying calls, then one run per read/seek call index k with that call failing (ErrorKind::Other) and one with it returning ErrorKind::Interrupted (which std's read_exact retries inside the library), then all pairs k1<k2 (k2 ranges over the calls of the k1 run); every failed API call is retried up to 3 times; oracle: Err, or the fault-free value; bytes equal the true content at the position the handle reports; no panic. A case is one (workload, plan); all are distinct");
     let mut runs = 0u64;
     let mut calls = 0u64;
     for v in [3u16, 4] {
@@ -599,7 +599,7 @@ fn c12(tier: &str, thorough: bool) -> i32 {
             }
         };
         for (name, max_buf, steps) in crate::e4::readonly_workloads() {
-            let case = crate::e4::FaultCase { with_interrupted: true, workload: name.clone(), version: v, max_buf, steps, plan: vec![], kinds: vec![CallKind::Read, CallKind::Seek], read_only: true };
+            let case = crate::e4::FaultCase { generated: false, with_interrupted: true, workload: name.clone(), version: v, max_buf, steps, plan: vec![], kinds: vec![CallKind::Read, CallKind::Seek], read_only: true };
             // pairs: both faults in the stream-read phase always; including the open phase for V3 in thorough
             let pairs = if thorough && v == 3 { crate::e4::Pairs::All } else { crate::e4::Pairs::AfterFirstStep };
             let st = crate::e4::explore(ctx, &case, Some(&base), &[CallKind::Read, CallKind::Seek], pairs);
@@ -608,6 +608,38 @@ fn c12(tier: &str, thorough: bool) -> i32 {
             calls += st.calls;
             ctx.add("fault_positions", st.positions);
             ctx.add("faults_delivered", st.faults_delivered);
+        }
+    }
+    // generated workloads: every sequence of reads / fill_buf / seeks of the depth on each stream and buffer size
+    {
+        use rayon::prelude::*;
+        let depth = if thorough { 3 } else { 2 };
+        let gen = crate::e4::generated_readonly_workloads(depth);
+        for v in [3u16, 4] {
+            let base = match crate::e4::readonly_base(v) {
+                Ok(b) => b,
+                Err(_) => continue,
+            };
+            let stats: Vec<crate::e4::FaultStats> = gen
+                .par_iter()
+                .map(|(name, max_buf, steps, prefix_len)| {
+                    let case = crate::e4::FaultCase { generated: true, with_interrupted: true, workload: name.clone(), version: v, max_buf: *max_buf, steps: steps.clone(), plan: vec![], kinds: vec![CallKind::Read, CallKind::Seek], read_only: true };
+                    crate::e4::explore_from(ctx, &case, Some(&base), &[CallKind::Read, CallKind::Seek], crate::e4::Pairs::None, *prefix_len)
+                })
+                .collect();
+            let (mut r, mut c, mut p, mut d) = (0u64, 0u64, 0u64, 0u64);
+            for st in &stats {
+                r += st.runs;
+                c += st.calls;
+                p += st.positions;
+                d += st.faults_delivered;
+            }
+            ctx.note(format!("v{} generated workloads (2 streams x 2 buffer sizes x every sequence of {} steps over 11 step kinds): workloads={} fault positions={} runs={} underlying calls executed={} faults delivered={}", v, depth, gen.len(), p, r, c, d));
+            runs += r;
+            calls += c;
+            ctx.add("fault_positions", p);
+            ctx.add("faults_delivered", d);
+            ctx.add("generated_workloads", gen.len() as u64);
         }
     }
     ctx.set("evaluations", runs);
@@ -626,7 +658,7 @@ fn c13(tier: &str, thorough: bool) -> i32 {
     let mut calls = 0u64;
     for v in [3u16, 4] {
         for (name, max_buf, steps) in crate::e4::mutating_workloads() {
-            let case = crate::e4::FaultCase { with_interrupted: false, workload: name.clone(), version: v, max_buf, steps, plan: vec![], kinds: vec![CallKind::Write, CallKind::Seek, CallKind::Flush], read_only: false };
+            let case = crate::e4::FaultCase { generated: false, with_interrupted: false, workload: name.clone(), version: v, max_buf, steps, plan: vec![], kinds: vec![CallKind::Write, CallKind::Seek, CallKind::Flush], read_only: false };
             let st = crate::e4::explore(ctx, &case, None, &[CallKind::Write, CallKind::Seek, CallKind::Flush], if thorough { crate::e4::Pairs::Near(if v == 3 { 300 } else { 60 }) } else { crate::e4::Pairs::None });
             ctx.note(format!("v{} {}: fault positions={} runs={} underlying calls executed={} faults delivered={}", v, name, st.positions, st.runs, st.calls, st.faults_delivered));
             runs += st.runs;
@@ -644,7 +676,7 @@ fn c13(tier: &str, thorough: bool) -> i32 {
             let stats: Vec<crate::e4::FaultStats> = gen
                 .par_iter()
                 .map(|(name, max_buf, steps, prefix_len)| {
-                    let case = crate::e4::FaultCase { with_interrupted: false, workload: name.clone(), version: v, max_buf: *max_buf, steps: steps.clone(), plan: vec![], kinds: vec![CallKind::Write, CallKind::Seek, CallKind::Flush], read_only: false };
+                    let case = crate::e4::FaultCase { generated: true, with_interrupted: false, workload: name.clone(), version: v, max_buf: *max_buf, steps: steps.clone(), plan: vec![], kinds: vec![CallKind::Write, CallKind::Seek, CallKind::Flush], read_only: false };
                     // faults in the calls of the generated steps (and of the closing flushes), not of the common prefix
                     crate::e4::explore_from(ctx, &case, None, &[CallKind::Write, CallKind::Seek, CallKind::Flush], crate::e4::Pairs::None, *prefix_len)
                 })
